@@ -61,7 +61,35 @@ func VerifC18() {
 				return
 			}
 			vCover("file-on-both-sides-changed")
-			vAssert(nw.Executable == n.Executable, "a change planned for the preserving side keeps the file's executable bit")
+			// Where may the bit of the rewritten file come from?  (property: "the
+			// non-preserving side only ever takes its notion of executability from
+			// matching content on the preserving side or in the last-synchronized
+			// state", and the bit on the preserving side survives an edit on the
+			// other endpoint.)
+			anc, _ := vtAt(ancestor, full)
+			ancFile := anc != nil && anc.Kind == EntryKind_File
+			switch {
+			case vtBytesEq(nw.Digest, n.Digest):
+				// same content as the preserving side holds: its own bit
+				vAssert(nw.Executable == n.Executable, "a change planned for the preserving side keeps the file's executable bit")
+			case ancFile && vtBytesEq(nw.Digest, anc.Digest):
+				// the preserving side's own edit is being reverted to the
+				// last-synchronized version (a mode in which the other side wins):
+				// the bit recorded with that version
+				vCover("reverted-to-last-synchronized")
+				vAssert(nw.Executable == anc.Executable, "a file reverted to its last-synchronized content takes the executable bit recorded with it")
+			case !ancFile || !vtBytesEq(anc.Digest, n.Digest):
+				// Known finding (DESIGN.md §11.5): content modified on BOTH sides and
+				// the non-preserving side wins - mutagen deliberately propagates no
+				// executability, the preserving side's file loses its bit.  Own label,
+				// so that this class - and only it - can be listed in known_findings.json.
+				vCover("file-modified-on-both-sides")
+				vAssert(nw.Executable == n.Executable, "a change planned for the preserving side keeps the file's executable bit [file content modified on both sides]")
+			default:
+				// content edited on the non-preserving side only
+				vCover("edited-on-the-other-endpoint")
+				vAssert(nw.Executable == n.Executable, "a change planned for the preserving side keeps the file's executable bit")
+			}
 		})
 	}
 	// With identical content on both sides, no action at all is planned for the file.
